@@ -59,6 +59,7 @@ def base(f):
     ld.link_data_array(a, [-1])                       # a range dimension that is linked already
     ls = host.append_set_dimension()
     ls.link_data_array(a, [-1])
+    fdf = b2.create_data_frame("fdf", "t", col_dict={"x": int}, data=[(1,)])           # a data frame of the OTHER block
     ba = b.create_data_array("ba", "t", data=np.array([True, False, True]))          # arrays of the other element kinds
     ia = b.create_data_array("ia", "t", data=np.array([1, 2, 3], dtype=np.int16))
     ua = b.create_data_array("ua", "t", data=np.array([[1, 2], [3, 4]], dtype=np.uint8))
@@ -67,7 +68,7 @@ def base(f):
     txtf = b.create_data_frame("txtf", "t", col_dict={"n": str, "v": int}, data=[("a", 1)])
     a.metadata = s                                    # existing metadata links (a refused re-assignment must keep them)
     t.metadata = sub
-    return dict(df5=df5, host=host, ld=ld, ls=ls, txtp=txtp, txta=txta, txtf=txtf, ba=ba, ia=ia, ua=ua, f=f, b=b, b2=b2, a=a, m=m, foreign=foreign, p=p, t=t, mt=mt, s=s, sub=sub, pr=pr, g=g, src=src, d=d, sd=sd, setd=setd,
+    return dict(df5=df5, host=host, ld=ld, ls=ls, txtp=txtp, txta=txta, txtf=txtf, ba=ba, ia=ia, ua=ua, fdf=fdf, f=f, b=b, b2=b2, a=a, m=m, foreign=foreign, p=p, t=t, mt=mt, s=s, sub=sub, pr=pr, g=g, src=src, d=d, sd=sd, setd=setd,
                 ft=ft, df=df)
 
 
@@ -188,6 +189,9 @@ TRIALS = [
     ("Tag.create_feature(array of another block)", "wrong block", lambda c: c["t"].create_feature(c["foreign"], nixio.LinkType.Tagged), None),
     ("Feature.data = <Section>", "wrong kind", setter("ft", "data", lambda c: c["s"]), None),
     ("Feature.link_type = 'bogus'", "inconsistent data type", setter("ft", "link_type", "bogus"), None),
+    ("Feature.data = <DataFrame> on a tagged feature", "wrong kind", setter("ft", "data", lambda c: c["df"]), None),
+    ("Feature.data = <DataFrame of another block>", "wrong block",
+     setter("ft", "data", lambda c: c["fdf"]), None),
     ("Tag.references.append(<Tag>)", "wrong kind", lambda c: c["t"].references.append(c["t"]), None),
     ("Tag.references.append(array of another block)", "wrong block", lambda c: c["t"].references.append(c["foreign"]), None),
     ("Group.data_arrays.append(<Section>)", "wrong kind", lambda c: c["g"].data_arrays.append(c["s"]), None),
